@@ -149,12 +149,12 @@ TermLoop(batch, i, g, F, r) ==
   ELSE LET n == batch[i] IN
     IF n \notin r.pc.members \/ r.pids[n] # "ok"
       THEN [r EXCEPT !.ok = FALSE, !.ret = "notingroup"]                       \* Belongs() fails: stop, nothing further
-    ELSE IF Failing(F, "terminate", n)
-      THEN [r EXCEPT !.ok = FALSE, !.ret = "error",
-                     !.calls = Append(@, Call("terminate", IF n \in r.asg.members THEN g ELSE "", n, FALSE, 1, 0,
-                                              IF n \in r.asg.members THEN "injected" ELSE "unknown-instance"))]
-    ELSE IF n \notin r.asg.members
+    ELSE IF n \notin r.asg.members                                             \* the cache lists an instance the cloud no longer has
       THEN [r EXCEPT !.ok = FALSE, !.ret = "error", !.calls = Append(@, Call("terminate", "", n, FALSE, 1, 0, "unknown-instance"))]
+    ELSE IF n \in r.asg.terminating                                            \* still listed, but already terminating: the cloud refuses
+      THEN [r EXCEPT !.ok = FALSE, !.ret = "error", !.calls = Append(@, Call("terminate", g, n, FALSE, 1, 0, "terminating"))]
+    ELSE IF Failing(F, "terminate", n)
+      THEN [r EXCEPT !.ok = FALSE, !.ret = "error", !.calls = Append(@, Call("terminate", g, n, FALSE, 1, 0, "injected"))]
     ELSE IF r.asg.desired - 1 < r.asg.min
       THEN [r EXCEPT !.ok = FALSE, !.ret = "error", !.calls = Append(@, Call("terminate", g, n, FALSE, 1, 0, "min"))]
     ELSE TermLoop(batch, i + 1, g, F,
@@ -162,7 +162,9 @@ TermLoop(batch, i, g, F, r) ==
                      !.terminated = @ \cup {n},
                      \* fix F6: the provider keeps its cached group in step with accepted terminations
                      !.pc = [@ EXCEPT !.desired = @ - 1, !.members = @ \ {n}],
-                     !.asg = [@ EXCEPT !.desired = @ - 1, !.members = @ \ {n}]])
+                     \* the cloud decrements at once; the instance leaves the list at once, or lingers as Terminating
+                     !.asg = IF @.linger THEN [@ EXCEPT !.desired = @ - 1, !.terminating = @ \cup {n}]
+                             ELSE [@ EXCEPT !.desired = @ - 1, !.members = @ \ {n}]])
 
 RECURSIVE DelLoop(_, _, _, _, _)
 DelLoop(batch, i, g, F, r) ==
@@ -450,7 +452,8 @@ RefreshCalls(F) ==
 RefreshOK(F) == ~Failing(F, "describe_asgs", "all")
 
 Refreshed(W, F) ==
-  IF RefreshOK(F) THEN [W EXCEPT !.groups = [g \in DOMAIN W.groups |-> [W.groups[g] EXCEPT !.pc = W.groups[g].asg]]]
+  \* (the provider keeps the listed instances whatever their lifecycle state: the cache has no notion of "terminating")
+  IF RefreshOK(F) THEN [W EXCEPT !.groups = [g \in DOMAIN W.groups |-> [W.groups[g] EXCEPT !.pc = [W.groups[g].asg EXCEPT !.terminating = {}]]]]
   ELSE W
 
 RECURSIVE GroupLoop(_, _, _, _, _)
@@ -481,7 +484,8 @@ ApplyCalls(W, calls, i) ==
        ELSE IF c.op = "delete" /\ c.n \in DOMAIN W.groups[g].api
          THEN ApplyCalls([W EXCEPT !.groups[g].api = [m \in (DOMAIN @) \ {c.n} |-> @[m]]], calls, i + 1)
        ELSE IF c.op = "terminate"
-         THEN ApplyCalls([W EXCEPT !.groups[g].asg = [@ EXCEPT !.desired = @ - 1, !.members = @ \ {c.n}],
+         THEN ApplyCalls([W EXCEPT !.groups[g].asg = IF @.linger THEN [@ EXCEPT !.desired = @ - 1, !.terminating = @ \cup {c.n}]
+                                                     ELSE [@ EXCEPT !.desired = @ - 1, !.members = @ \ {c.n}],
                                    !.groups[g].pc = [@ EXCEPT !.desired = @ - 1, !.members = @ \ {c.n}]], calls, i + 1)
        ELSE IF c.op = "set_desired" THEN ApplyCalls([W EXCEPT !.groups[g].asg.desired = c.a], calls, i + 1)
        ELSE ApplyCalls(W, calls, i + 1)
